@@ -17,7 +17,7 @@ def run(tier, scratch, t0, replay=None):
                               n_gen=30 if quick else 400, batch=15 if quick else 40,
                               focus=["int", "float", "complex", "text", "bytes", "frozenset", "big_tuple",
                                      "shared_consts", "py2long", "many_consts"],
-                              must_templates=["t_opcode_zoo", "t_opcode_zoo2", "t_set_of_bytes", "t_shared_big_tuple", "t_shared_frozenset", "t_strings", "t_ints", "t_floats", "t_complex", "t_py2_long", "t_closure", "t_class3", "t_pep695"])
+                              must_templates=["t_opcode_zoo", "t_opcode_zoo2", "t_big_literal", "t_set_of_bytes", "t_shared_big_tuple", "t_shared_frozenset", "t_strings", "t_ints", "t_floats", "t_complex", "t_py2_long", "t_closure", "t_class3", "t_pep695"])
     D.run_diff(res, batches, ["canon", "consumed"], ["C01"])
     D.corpus_invariants(res, scratch, ["C01"], tier)
     if not res.counters.get("c01_consumed_checks"):
